@@ -424,3 +424,10 @@ def oracle_late_file(case, obs):
 FAMILIES.append(Family("late_file", gen_late_file, impl_late_file, None, None, oracle_late_file,
                        lambda case, obs: json.dumps(case) if isinstance(obs, dict) and obs.get("overlap") else None,
                        shard=40, case_timeout=30))
+
+
+# ---- processes forked after eliot was imported log into the same file: their tasks must stay apart for the parser
+from props import C06 as _c06
+
+FAMILIES.append(Family("forked", _c06.gen_forked, _c06.impl_forked, None, None, _c06.oracle_forked,
+                       lambda case, obs: json.dumps(case), shard=3, case_timeout=60))
